@@ -223,6 +223,27 @@ def check(prog, rep, tier):
                                 zero, full = _zero_block(prog, cn, fld, idx, strip_epochs(e.value))
                             else:
                                 zero, full = e.value == C(0), _full_range(prog, cn, fld, idx)
+                            # a store skipped for some positions: only where the cell already is zero
+                            def same_cell(x):
+                                x = strip_epochs(x)
+                                return (x[0] == "it" and x[2] == ("f", SELF, fld, 0) and idx[0] in ("ix", "it") and idx[1] == x[1]) or \
+                                    (x[0] == "sub" and x[1] == ("f", SELF, fld, 0) and strip_epochs(rowform(x[2])) == idx)
+                            lids = set(e.loops)
+                            for c in p.conds[:e.ncond]:
+                                a = strip_epochs(c.atom)
+                                if a[0] == "loop0" or not any(n[0] in ("it", "ix", "hv") and len(n) > 1 and (n[1] in lids or (n[0] == "hv" and n[2] in lids)) for n in walk(a)):
+                                    continue
+                                nonzero = (same_cell(a) and c.truth) or \
+                                    (a[0] == "cmp" and a[1] in ("!=", "==") and C(0) in (a[2], a[3]) and same_cell(a[3] if a[2] == C(0) else a[2]) and (a[1] == "!=") == c.truth)
+                                if not nonzero and a[0] == "cmp" and a[1] == ">" and a[3] == C(0) and same_cell(a[2]) and c.truth:
+                                    from ..common import typed_fields
+                                    tcs = typed_fields(prog, cn).get(fld, set())
+                                    nonzero = bool(tcs) and tcs <= {"B", "H", "I", "L", "Q", "mmap"}  # unsigned cells: > 0 is != 0
+                                if not nonzero:
+                                    rep.bad("C19.clear-initial", f"{cn}.clear", f"{fld} cleared only where {nshow(a)} is {c.truth}",
+                                            f"clear() zeroes a cell of {fld} only where {nshow(a)} is {c.truth}: cells for which that does not hold keep their value "
+                                            "(only a cell that already is zero may be skipped)", e.where())
+                                    good = False
                             if not zero or not full:
                                 rep.bad("C19.clear-initial", f"{cn}.clear", f"{fld}[{nshow(idx)}] = {nshow(e.value)}",
                                         f"clear() stores {nshow(e.value)} at {nshow(idx)}: not a zero over the full range of the array", e.where())
@@ -562,6 +583,9 @@ MUTANTS = [
     Mutant("HeavyHitters.clear: delete __top_x = {}", _CM, del_stmt("HeavyHitters", "clear", "self.__top_x = {}"), rule="C19.clear-covers"),
     Mutant("HeavyHitters.clear: delete super().clear()", _CM, del_stmt("HeavyHitters", "clear", "super().clear()"), rule="C19.clear-covers"),
     Mutant("StreamThreshold.clear: delete table reset", _CM, del_stmt("StreamThreshold", "clear", "self.__meets_threshold = {}"), rule="C19.clear-covers"),
+    Mutant("CountMinSketch.clear skips cells that are not positive", _CM, replace_stmt("CountMinSketch", "clear", "self._bins[i] = 0", "if self._bins[i] > 0:\n    self._bins[i] = 0"), rule="C19.clear-initial"),
+    Mutant("CountMinSketch.clear skips cells that are zero (same meaning)", _CM, replace_stmt("CountMinSketch", "clear", "self._bins[i] = 0", "if self._bins[i] != 0:\n    self._bins[i] = 0"), expect="silent"),
+    Mutant("CountingBloomFilter-style unsigned skip in Bitarray.clear (same meaning)", "utilities.py", replace_stmt("Bitarray", "clear", "self._bitarray[i] = 0", "if self._bitarray[i] > 0:\n    self._bitarray[i] = 0"), expect="silent"),
     Mutant("CountMinSketch.clear: total left untouched", _CM, del_stmt("CountMinSketch", "clear", "self.__elements_added = 0"), rule="C19.clear-covers"),
     Mutant("BloomFilter.clear: counter reset to 1", _B, replace_stmt("BloomFilter", "clear", "self._els_added = 0", "self._els_added = 1"), rule="C19.clear-initial"),
     Mutant("BloomFilter.clear: range(bloom_length - 1)", _B, replace_expr("BloomFilter", "clear", "range(self._bloom_length)", "range(self._bloom_length - 1)"), rule="C19.clear-initial"),
